@@ -139,4 +139,17 @@ theorem pipeline_grammar_never_panics (extras : Bool) (text : Str) (rs : List OR
     exact .inl (.inl (has_of_mem_names (c := c) (by simpa using hname)))
   exact accepted_ns_grammar_never_panics extras rules rs hacc uni memchr detail name input hns hstart
 
+/-- the hypotheses of `pipeline_grammar_never_panics`, evaluated on a text. -/
+def hypothesesHold (text : Str) (start : String) : Bool :=
+  match PestModel.Pipeline.parseAndOptimize false text, PestModel.ReaderFull.readGrammar false text with
+  | some (.ok rs), some rules =>
+    rules.all (fun r => PestModel.C06.StackFree r.expr) && rules.all (fun r => NoTagE r.expr) &&
+      decide (optimizeWith false false rules = some rs) && decide (rules.length ≤ 333333333) && (rules.map (·.name)).contains start
+  | _, _ => false
+
+/-- not vacuous: they hold for `a = { "x" ~ b }⏎b = { "y" }` with start rule `a` (kernel evaluation of the whole pipeline). -/
+example : hypothesesHold
+    ['a',' ','=',' ','{',' ','"','x','"',' ','~',' ','b',' ','}','\n','b',' ','=',' ','{',' ','"','y','"',' ','}'] "a" = true := by
+  decide +kernel
+
 end PestModel.E2E
